@@ -12,16 +12,16 @@ DRIVER = "shootmodel_cli"
 MANIFEST = dict(
     text="Lean 4 theorems over a model of ParseCommonFlags / LoadPackage's go:generate lookup / confirmTypes+getGoFile / the four ListTypes "
          "and MakeData eligibility filters / Generate's srcMap / fileName / main's message loop, for ALL packages (lists of files of "
-         "declarations with go/types facts), all flag values and every iteration order of TypesInfo.Defs: on the WF region the model's "
+         "declarations with go/types facts) and all flag values: on the WF region the model's "
          "written files, the types each holds and the listed names equal the specification (named types / eligible types of the file / "
-         "eligible types of the package; src.shoot<cmd>[.<type>].go; bad names rejected with a diagnostic). Five finding regions with "
-         "witness theorems. Model tied to the code by running the rebuilt binary on generated multi-file packages for all four sub-commands.",
+         "eligible types of the package; src.shoot<cmd>[.<type>].go; bad names rejected with a diagnostic). Two finding regions with "
+         "witness theorems (-type=* dot-files); three former ones were repaired in /repo and are now asserted. Model tied to the code by running the rebuilt binary on generated multi-file packages for all four sub-commands.",
     note="Lean kernel + standard axioms; black-box correspondence on the rebuilt shoot binary (directory diff, top-level declarations of "
          "each written file, CLI messages); Go's flag package, go/types facts and generation success of eligible types are inputs of the model.",
     technique="Lean 4 proof (induction over declaration lists) + differential model/implementation correspondence",
     design="5/C16")
 
-REPS = 6   # runs per case whose outcome depends on map iteration order
+REPS = 6   # runs per case with a type parameter named like a selected type (every run must give the same, specified outcome)
 
 
 # ---------------------------------------------------------------------------------
@@ -190,7 +190,7 @@ def gen_cases(ctx):
             if rng.random() < 0.2:
                 sel = ["-file=" + rng.choice(p["files"])["name"]] + sel
                 tags = ["file+named-random"]
-            add(p, sel, tags, order=rng.choice(["sel-last", "sel-first"]))
+            add(p, sel, tags + [e for e in extra if e.startswith("tparam-")], order=rng.choice(["sel-last", "sel-first"]))
         elif r < 0.55:
             sel = ["-file=" + rng.choice(p["files"])["name"]]
             if rng.random() < 0.4:
@@ -253,7 +253,9 @@ def run_cases(ctx, cases):
     clones = {}
     for c in cases:
         m = model.get(c["id"]) or {}
-        reps = REPS if (m.get("region") == "F_getgofile" or any(str(v).startswith("oneof ") for v in m.get("model", {}).values())) else 1
+        # type parameters / local types named like a selected type used to make the outcome depend on map order
+        # (repaired in /repo f3054bd): those shapes are still run several times, and now asserted
+        reps = REPS if any(t.startswith("tparam-") for t in c["tags"]) else 1
         clones[c["id"]] = []
         for i in range(reps):
             cc = dict(c)
@@ -343,7 +345,7 @@ def run(ctx, obl):
                 "unexported / generic structs, aliases, non-integer and integer types with and without constants (typed, carried, "
                 "blank-only, untyped), integer kinds outside int/uint/int32/uint32, interfaces with and without RestClient; the rebuilt "
                 "binary is run in the package directory and the directory diff, the receiver types declared in each written file, the "
-                "listed names and the diagnostics are compared. Cases whose outcome depends on map iteration order are run %d times. "
+                "listed names and the diagnostics are compared. Cases with a type parameter named like a selected type are run %d times. "
                 "non-trivial = distinct (package, command line) where a file is written or a name must be rejected") % (nshaped, REPS)
     res.assumptions = ["Go's flag package parses -name=value / bare boolean flags as documented (the parsed values are an input of the model)",
                        "go/types facts of each declaration (underlying kind, embedded interfaces) are those the generator wrote into the source",
